@@ -45,7 +45,7 @@ FLOORS = {'quick': {'histories': 530, 'serve_histories': 390, 'seed_histories': 
                     'boundary_dont_care': 1450, 'threshold_changes': 620, 'seed_stale_refetched': 1240,
                     'seed_fresh_untouched': 6900, 'seed_failed_refresh_kept_old': 95, 'stale_served_on_error': 55,
                     'linked_histories': 18, 'linked_tile_judgements': 170, 'cache_source_histories': 20, 'two_source_histories': 20,
-                    'stored_timestamp_of_new_tile_checked': 2000, 'seed_tiles_where_cache_rule_says_otherwise': 400},
+                    'stored_timestamp_of_new_tile_checked': 2000, 'seed_tiles_where_cache_rule_says_otherwise': 400, 'dimension_histories': 25},
           'thorough': {'histories': 8500, 'serve_histories': 6500, 'seed_histories': 1900, 'seed_tasks': 4500,
                        'stale_refetched': 45000, 'fresh_served_from_cache': 137000, 'failed_refresh_kept_old': 15800,
                        'refreshed_after_recovery': 6000, 'boundary_dont_care': 22000, 'threshold_changes': 10700,
@@ -1279,6 +1279,8 @@ def gen_cases(run):
             yield {'i': i, 'mode': 'cache_source'}
         if i % 20 == 17:
             yield {'i': i, 'mode': 'two_sources'}
+        if i % 20 == 3:
+            yield {'i': i, 'mode': 'dims'}
         yield {'i': i, 'mode': 'seed' if i % 4 == 3 else 'serve'}
 
 
@@ -1415,6 +1417,148 @@ def run_two_sources(run, case, d):
         bad('stale_served', 'after the upstream recovered the stale tile was not refreshed (upstream calls %r)' % (calls,))
         return
     run.hit('two_source_histories')
+
+
+DIM_COLOURS = {'2020': (200, 30, 30), '2021': (30, 200, 30), '2022-06-01T00:00:00Z': (30, 30, 200)}
+
+
+def run_dims(run, case, d):
+    """a layer with a dimension on a file cache with a refresh rule: the address of a tile includes the dimension value, and so
+    does its age. A tile written now is served from the cache (no upstream request) for its value; made old, it is fetched
+    again exactly once, while the tile of the other value stays as it is."""
+    import io as _io
+    from PIL import Image
+    from mapproxy.cache.tile import Tile
+    rng = run.rng('dims', case['i'])
+    via = rng.choice(['tm', 'wmts', 'wmts'])
+    meta = rng.choice([[1, 1], [2, 2]])
+    layout = rng.choice(['tc', 'tms', 'arcgis'])
+    tz = rng.choice(['UTC', 'Europe/Berlin', 'Asia/Kolkata'])
+    up = upstream.install()
+    up.faults.clear()
+    up.reset_log()
+    state = {'epoch': 0}
+
+    def pic(call):
+        try:
+            w, h = int(call.params.get('width', 64)), int(call.params.get('height', 64))
+        except ValueError:
+            w, h = 64, 64
+        col = DIM_COLOURS.get(call.params.get('time'), (0, 0, 0))
+        b = _io.BytesIO()
+        im = Image.new('RGB', (max(1, min(w, 1024)), max(1, min(h, 1024))), col)
+        im.putpixel((1, 1), (1, 2, 3 + state['epoch']))
+        for ty in range(0, im.size[1], 64):
+            for tx in range(0, im.size[0], 64):
+                im.putpixel((tx + 2, ty + 2), (9, 9, 40 * state['epoch']))       # epoch mark in every tile
+        im.save(b, 'PNG')
+        return upstream.Resp(b.getvalue(), 'image/png')
+    up.register('flat', pic)
+    with timezone(tz):
+        now = int(time.time())
+        T0 = now - 30 * 86400
+        while not stable_offset(T0, tz):
+            T0 -= 3 * 86400
+        vals = sorted(DIM_COLOURS)
+        conf = scenario.base_conf()
+        conf['grids']['g'] = {'srs': 'EPSG:3857', 'bbox': [-20037508.342789244, -20037508.342789244, 20037508.342789244, 20037508.342789244],
+                              'tile_size': [64, 64], 'num_levels': 4, 'origin': 'ul'}
+        conf['sources']['src'] = {'type': 'wms', 'req': {'url': 'http://flat/service?', 'layers': 'a'}, 'supported_srs': ['EPSG:3857'],
+                                  'forward_req_params': ['time']}
+        conf['caches']['c'] = {'grids': ['g'], 'sources': ['src'], 'format': 'image/png', 'request_format': 'image/png',
+                               'meta_size': meta, 'meta_buffer': 0, 'cache': {'type': 'file', 'directory_layout': layout},
+                               'refresh_before': {'time': local_str(T0, tz, 'T')}}
+        conf['layers'] = [{'name': 'l', 'title': 'l', 'sources': ['c'],
+                           'dimensions': {'time': {'values': vals, 'default': vals[0]}}}]
+        conf['services'] = {'wmts': {}, 'tms': {}}
+        sc = scenario.Scenario(d, conf)
+        tm = sc.tile_manager('c')
+        A = (rng.randrange(4), rng.randrange(4), 2)
+        va, vb = rng.sample(vals, 2)
+        hist = []
+        mech0 = {'mode': 'dimensions', 'via': via, 'meta': '%dx%d' % tuple(meta)}
+
+        def ask(v, label):
+            n0 = len(up.log)
+            img = None
+            err = None
+            try:
+                if via == 'tm':
+                    from mapproxy.config import local_base_config
+                    with local_base_config(sc.conf.base_config):
+                        with tm.session():
+                            t = tm.load_tile_coord(A, dimensions={'time': v}, with_metadata=True)
+                    img = t.source.as_image().convert('RGB') if t.source is not None else None
+                else:
+                    r = sc.get('/service?SERVICE=WMTS&VERSION=1.0.0&REQUEST=GetTile&LAYER=l&STYLE=default&TILEMATRIXSET=g&TILEMATRIX=%d'
+                               '&TILEROW=%d&TILECOL=%d&FORMAT=image/png&TIME=%s' % (A[2], A[1], A[0], v))
+                    if r.code == 200 and r.content_type.startswith('image/'):
+                        img = r.image().convert('RGB')
+                    else:
+                        err = 'HTTP %s %s %r' % (r.code, r.content_type, r.body[:120])
+            except Exception as ex:
+                err = repr(ex)
+            calls = len(up.log) - n0
+            ep = img.getpixel((2, 2))[2] // 40 if img is not None else None
+            col = img.getpixel((30, 30)) if img is not None else None
+            hist.append('%s time=%s -> %s, %d upstream calls, colour %r, epoch mark %r' % (label, v, err or 'ok', calls, col, ep))
+            return err, calls, col, ep
+
+        def bad(clause, detail, **kw):
+            run.violation(dict(mech0, clause=clause, **kw), case, 'dimension layer with refresh_before (%s, meta %r, layout %s): %s | '
+                          'threshold %d | history: %s' % (via, meta, layout, detail, T0, ' ; '.join(hist)))
+
+        def judge(v, label, want_calls, want_epoch, clause):
+            err, calls, col, ep = ask(v, label)
+            run.judge(('dims', via, tuple(meta), clause), nontrivial=True)
+            if err:
+                bad('no_image', '%s: %s' % (label, err))
+                return False
+            if col != DIM_COLOURS[v]:
+                bad('wrong_dimension_value_served', '%s: colour %r, the picture of time=%s is %r' % (label, col, v, DIM_COLOURS[v]))
+                return False
+            if calls != want_calls or ep != want_epoch:
+                bad(clause, '%s: %d upstream calls (expected %d), epoch mark %r (expected %r)' % (label, calls, want_calls, ep, want_epoch))
+                return False
+            return True
+        if not judge(va, 'first request', 1, 0, 'missing_not_fetched_once'):
+            return
+        if not judge(va, 'same tile again (written a moment ago)', 0, 0, 'fresh_refetched'):
+            return
+        run.hit('fresh_served_from_cache')
+        if not judge(vb, 'other value, first request', 1, 0, 'missing_not_fetched_once'):
+            return
+        if not judge(vb, 'other value again', 0, 0, 'fresh_refetched'):
+            return
+        run.hit('fresh_served_from_cache')
+        # the tile of value va becomes older than the threshold (every tile of its meta tile, as a real clock would do)
+        loc = tm.cache.tile_location(Tile(A), dimensions={'time': va})
+        if not os.path.exists(loc):
+            bad('tile_not_stored_under_its_dimension', 'no file at %s' % loc)
+            return
+        root = loc
+        for _ in range(64):
+            root = os.path.dirname(root)
+            if os.path.basename(root).startswith('time-'):
+                break
+        nold = 0
+        for r_, _, fs_ in os.walk(root):
+            for f_ in fs_:
+                os.utime(os.path.join(r_, f_), (T0 - 3600, T0 - 3600))
+                nold += 1
+        hist.append('%d tiles of time=%s stamped threshold-3600' % (nold, va))
+        state['epoch'] = 1
+        if not judge(va, 'expired tile of the first value', 1, 1, 'stale_not_refetched_once'):
+            return
+        run.hit('stale_refetched')
+        if not judge(vb, 'tile of the other value (still fresh)', 0, 0, 'fresh_refetched'):
+            return
+        run.hit('fresh_served_from_cache')
+        if not judge(va, 'refreshed tile again', 0, 1, 'fresh_refetched'):
+            return
+        run.hit('fresh_served_from_cache')
+        run.hit('dimension_histories')
+        run.hit('histories')
 
 
 def run_cache_source(run, case, d):
@@ -1680,15 +1824,15 @@ def run_linked(run, case, d):
 def run_case(run, case):
     rng = run.rng('case', case['i'])
     mode = case['mode']
-    spec = case.get('spec') or (gen_spec(rng, mode) if mode not in ('linked', 'cache_source', 'two_sources') else None)
+    spec = case.get('spec') or (gen_spec(rng, mode) if mode not in ('linked', 'cache_source', 'two_sources', 'dims') else None)
     ops = case.get('ops')
-    if ops is None and mode not in ('linked', 'cache_source', 'two_sources'):
+    if ops is None and mode not in ('linked', 'cache_source', 'two_sources', 'dims'):
         ops = gen_serve_ops(rng, spec) if mode == 'serve' else gen_seed_ops(rng, spec)
     d = run.subdir('c13')
     up = upstream.install()
-    if mode in ('linked', 'cache_source', 'two_sources'):
+    if mode in ('linked', 'cache_source', 'two_sources', 'dims'):
         try:
-            {'linked': run_linked, 'cache_source': run_cache_source, 'two_sources': run_two_sources}[mode](run, case, d)
+            {'linked': run_linked, 'cache_source': run_cache_source, 'two_sources': run_two_sources, 'dims': run_dims}[mode](run, case, d)
         finally:
             up.faults.clear()
             shutil.rmtree(d, ignore_errors=True)
